@@ -507,6 +507,19 @@ func (r *Rig) In(raw []byte) StepResult {
 	return r.end(from, pan)
 }
 
+// InWatched delivers one inbound frame on a helper goroutine and gives up waiting after limit:
+// hung=true means the engine did not return (the goroutine is left behind, still running).
+func (r *Rig) InWatched(raw []byte, limit time.Duration) (st StepResult, hung bool) {
+	done := make(chan StepResult, 1)
+	go func() { done <- r.In(raw) }()
+	select {
+	case st = <-done:
+		return st, false
+	case <-time.After(limit):
+		return StepResult{}, true
+	}
+}
+
 // Timeout delivers a timer event: 0 PeerTimeout 1 NeedHeartbeat 2 LogonTimeout 3 LogoutTimeout.
 func (r *Rig) Timeout(ev int) StepResult {
 	from := r.begin()
